@@ -3,7 +3,7 @@
    a file is its byte sequence; [no_lone_cr]: CR occurs only in CRLF or as the last byte. *)
 From Coq Require Import Ascii String.
 From Coq Require Import Reals List Bool.
-From Evo Require Import Num Linalg LinalgR FileFmt FileFmtProofs Readers ReadersProofs ReadersQuat.
+From Evo Require Import Num Linalg LinalgR FileFmt FileFmtProofs Readers ReadersProofs ReadersQuat ReadersWriter.
 Import ListNotations.
 
 (* --- the reader model returns exactly what the independently written convention returns, on every file --- *)
@@ -95,6 +95,27 @@ Theorem C07_euroc_slots :
     nth_error tr i = Some (mkTP (ndiv vt ns_per_s) [vx; vy; vz] [vqw; vqx; vqy; vqz]).
 Proof. exact @euroc_slots. Qed.
 Print Assumptions C07_euroc_slots.
+
+(* --- files evo writes (tokens joined by one blank, one "\n" per row) are read by the independent parser to the same poses --- *)
+Theorem C07_written_tum_files_read_by_the_convention_spec :
+  forall (T : Type) (ops : NumOps T) (fmt : T -> chars) (parse : chars -> option T) (ok : T -> Prop),
+  (forall x, ok x -> parse (fmt x) = Some x) ->
+  (forall x, ~ In SP (fmt x) /\ ~ In LF (fmt x) /\ ~ In CR (fmt x)) ->
+  (forall x c r, fmt x = c :: r -> c <> HASH) ->
+  forall tr : list (TP T), tr <> [] -> Forall tp_valid tr -> Forall (tp_ok ok) tr ->
+  tum_spec parse FromHandle (render (write_tum fmt tr)) = Some tr.
+Proof. exact @tum_spec_reads_written. Qed.
+Print Assumptions C07_written_tum_files_read_by_the_convention_spec.
+
+Theorem C07_written_kitti_files_read_by_the_convention_spec :
+  forall (T : Type) (ops : NumOps T) (fmt : T -> chars) (parse : chars -> option T) (ok : T -> Prop),
+  (forall x, ok x -> parse (fmt x) = Some x) ->
+  (forall x, ~ In SP (fmt x) /\ ~ In LF (fmt x) /\ ~ In CR (fmt x)) ->
+  (forall x c r, fmt x = c :: r -> c <> HASH) ->
+  forall tr : list (list T), tr <> [] -> Forall pose_valid tr -> Forall (Forall ok) tr ->
+  kitti_spec parse FromHandle (render (write_kitti fmt tr)) = Some tr.
+Proof. exact @kitti_spec_reads_written. Qed.
+Print Assumptions C07_written_kitti_files_read_by_the_convention_spec.
 
 (* --- quaternion convention --- *)
 Local Open Scope R_scope.
